@@ -369,6 +369,54 @@ class _Subst(ast.NodeTransformer):
         if isinstance(node.func, ast.Name) and node.func.id == 'getattr' and len(node.args) == 2 and isinstance(node.args[1], ast.Constant) \
                 and isinstance(node.args[1].value, str) and node.args[1].value.isidentifier():
             return ast.copy_location(ast.Attribute(value=node.args[0], attr=node.args[1].value, ctx=ast.Load()), node)
+        import copy
+        fname = node.func.attr if isinstance(node.func, ast.Attribute) else (node.func.id if isinstance(node.func, ast.Name) else '')
+        # attrgetter('a')(x) -> x.a ; itemgetter(0)(x) -> x[0]
+        if isinstance(node.func, ast.Call) and not node.keywords and len(node.args) == 1:
+            inner = node.func
+            iname = inner.func.attr if isinstance(inner.func, ast.Attribute) else (inner.func.id if isinstance(inner.func, ast.Name) else '')
+            if iname == 'attrgetter' and len(inner.args) == 1 and isinstance(inner.args[0], ast.Constant) and isinstance(inner.args[0].value, str) \
+                    and all(p_.isidentifier() for p_ in inner.args[0].value.split('.')):
+                out: ast.AST = node.args[0]
+                for p_ in inner.args[0].value.split('.'):
+                    out = ast.Attribute(value=out, attr=p_, ctx=ast.Load())
+                return ast.copy_location(out, node)
+            if iname == 'itemgetter' and len(inner.args) == 1 and isinstance(inner.args[0], ast.Constant):
+                return ast.copy_location(ast.Subscript(value=node.args[0], slice=inner.args[0], ctx=ast.Load()), node)
+        # map(f, xs) -> (f(x) for x in xs) ; filter(f, xs) -> (x for x in xs if f(x)) ; filter(None, xs) -> (x for x in xs if x)      [iterators either way]
+        if isinstance(node.func, ast.Name) and fname in ('map', 'filter') and len(node.args) == 2 and not node.keywords \
+                and not any(isinstance(a, ast.Starred) for a in node.args):
+            f, xs = node.args
+            v = ast.Name(id=f'_{fname[0]}x', ctx=ast.Load())
+            if any(isinstance(x, ast.Name) and x.id == v.id for x in ast.walk(node)):
+                return node
+
+            def apply(fn):
+                if isinstance(fn, ast.Call) and (getattr(fn.func, 'attr', None) or getattr(fn.func, 'id', '')) == 'attrgetter' and len(fn.args) == 1 \
+                        and isinstance(fn.args[0], ast.Constant) and isinstance(fn.args[0].value, str) and fn.args[0].value.isidentifier():
+                    return ast.Attribute(value=copy.deepcopy(v), attr=fn.args[0].value, ctx=ast.Load())
+                if isinstance(fn, ast.Lambda) and len(fn.args.args) == 1 and not fn.args.defaults:
+                    return _Subst({fn.args.args[0].arg: v}).visit(copy.deepcopy(fn.body))
+                if isinstance(fn, (ast.Name, ast.Attribute)):
+                    return ast.Call(func=fn, args=[copy.deepcopy(v)], keywords=[])
+                return None
+            tgt = ast.Name(id=v.id, ctx=ast.Store())
+            gen = None
+            if fname == 'map':
+                e = apply(f)
+                if e is not None:
+                    gen = ast.GeneratorExp(elt=e, generators=[ast.comprehension(target=tgt, iter=xs, ifs=[], is_async=0)])
+            elif isinstance(f, ast.Constant) and f.value is None:
+                gen = ast.GeneratorExp(elt=copy.deepcopy(v), generators=[ast.comprehension(target=tgt, iter=xs, ifs=[copy.deepcopy(v)], is_async=0)])
+            else:
+                e = apply(f)
+                if e is not None:
+                    gen = ast.GeneratorExp(elt=copy.deepcopy(v), generators=[ast.comprehension(target=tgt, iter=xs, ifs=[e], is_async=0)])
+            if gen is not None:
+                for x in ast.walk(gen):
+                    if not hasattr(x, 'lineno'):
+                        ast.copy_location(x, node)
+                return ast.copy_location(gen, node)
         return node
 
 
@@ -777,9 +825,46 @@ class Desugar(ast.NodeTransformer):
                     del body[j]
                     continue
             j += 1
-        # D12: M.update(dict.fromkeys(KEYS, V))   ->   for k in KEYS: M[k] = V
+        # D13: if (v := E) ...:   ->   v = E ; if v ...:        (the assignment expression is what the test evaluates first)
         import copy
         body = list(body)
+        bi = 0
+        while bi < len(body):
+            b0 = body[bi]
+            if isinstance(b0, ast.If):
+                def first_slot(t):
+                    # (holder, field, index) of the sub-expression evaluated first
+                    if isinstance(t, ast.NamedExpr):
+                        return None
+                    if isinstance(t, ast.UnaryOp) and isinstance(t.op, ast.Not) and isinstance(t.operand, ast.NamedExpr):
+                        return (t, 'operand', None)
+                    if isinstance(t, ast.Compare) and isinstance(t.left, ast.NamedExpr):
+                        return (t, 'left', None)
+                    if isinstance(t, ast.BoolOp) and t.values and isinstance(t.values[0], ast.NamedExpr):
+                        return (t, 'values', 0)
+                    if isinstance(t, ast.BoolOp) and t.values and isinstance(t.values[0], (ast.Compare, ast.UnaryOp)):
+                        return first_slot(t.values[0])
+                    return False
+                slot = first_slot(b0.test)
+                ne = None
+                if slot is None:
+                    ne = b0.test
+                    b0.test = ast.copy_location(ast.Name(id=ne.target.id, ctx=ast.Load()), ne)
+                elif slot:
+                    holder, fld, ix = slot
+                    ne = getattr(holder, fld) if ix is None else getattr(holder, fld)[ix]
+                    repl = ast.copy_location(ast.Name(id=ne.target.id, ctx=ast.Load()), ne)
+                    if ix is None:
+                        setattr(holder, fld, repl)
+                    else:
+                        getattr(holder, fld)[ix] = repl
+                if ne is not None:
+                    asg = ast.copy_location(ast.Assign(targets=[ast.Name(id=ne.target.id, ctx=ast.Store())], value=ne.value), b0)
+                    ast.fix_missing_locations(asg)
+                    body.insert(bi, asg)
+                    bi += 1
+            bi += 1
+        # D12: M.update(dict.fromkeys(KEYS, V))   ->   for k in KEYS: M[k] = V
         for bi, b0 in enumerate(body):
             if isinstance(b0, ast.Expr) and isinstance(b0.value, ast.Call) and isinstance(b0.value.func, ast.Attribute) and b0.value.func.attr == 'update' \
                     and len(b0.value.args) == 1 and not b0.value.keywords and isinstance(b0.value.args[0], ast.Call) and norm_src(b0.value.args[0].func) == 'dict.fromkeys' \
